@@ -112,6 +112,52 @@ def main():
 
     from harness.crot import rot
 
+    def rot2(e, add, mul, keep_sugar=True):
+        """tools/harness/crot.py::rot with the + - and the * re-association switchable (a partial
+        repair of K-C06-1 re-associates only one of them) and optionally ignoring the sugar."""
+        def add_chain(x):
+            if add and isinstance(x, ir.Add):
+                return add_chain(x.left) + add_chain(x.right)
+            if add and isinstance(x, ir.Subtract):
+                return add_chain(x.left) + [("-", rot2(x.right, add, mul, keep_sugar))]
+            return [("+", rot2(x, add, mul, keep_sugar))]
+
+        def mul_chain(x):
+            if mul and isinstance(x, ir.Multiply):
+                return mul_chain(x.left) + mul_chain(x.right)
+            return [rot2(x, add, mul, keep_sugar)]
+
+        if add and isinstance(e, (ir.Add, ir.Subtract)):
+            ch = add_chain(e)
+            acc = ch[0][1]
+            for sgn, a in ch[1:]:
+                acc = ir.Add(acc, a) if sgn == "+" else ir.Subtract(acc, a)
+            return acc
+        if mul and isinstance(e, ir.Multiply):
+            ch = mul_chain(e)
+            acc = ch[0]
+            for a in ch[1:]:
+                acc = ir.Multiply(acc, a)
+            return acc
+        if isinstance(e, ir.Assignment):
+            v = e.value
+            if keep_sugar and isinstance(v, (ir.Add, ir.Subtract, ir.Multiply)) and v.left == e.target:
+                return ir.Assignment(e.target, type(v)(rot2(v.left, add, mul), rot2(v.right, add, mul)))
+            return ir.Assignment(e.target, rot2(v, add, mul, keep_sugar))
+        if isinstance(e, (ir.Variable, IL, FL, BL)):
+            return e
+        if isinstance(e, ir.ArrayIndex):
+            return ir.ArrayIndex(e.target, rot2(e.index, add, mul))
+        if isinstance(e, ir.BooleanToInteger):
+            return ir.BooleanToInteger(rot2(e.expression, add, mul))
+        if isinstance(e, ir.ArrayAllocate):
+            return ir.ArrayAllocate(e.element_type, rot2(e.n_elements, add, mul))
+        if isinstance(e, ir.ArrayReallocate):
+            return ir.ArrayReallocate(e.old, e.element_type, rot2(e.n_elements, add, mul))
+        if hasattr(e, "left") and hasattr(e, "right"):
+            return type(e)(rot2(e.left, add, mul), rot2(e.right, add, mul))
+        return e
+
     cfg = json.load(sys.stdin)
     rng = random.Random(cfg["seed"])
     outdir = cfg["outdir"]
@@ -357,17 +403,30 @@ From TV Require Import spec.Num gen.IRAst spec.PyBase spec.CGrammar model.CPrint
 Import ListNotations.
 Local Open Scope nat_scope.
 Definition toks_eqb := list_eqb ctoken_eqb.
-(* 0 = fine; 1 = printed tokens differ from the model; 2 = the parser does not read embed (rotate e)
-   from the REAL tokens although the tree is inside the guard *)
+(* 0 = fine: tokens equal the model's, and (inside the guard) the verified-sound parser reads
+       embed (rotate e) from them
+   1 = tokens differ from the model and the text does not parse to a re-association of the tree
+   2 = tokens equal but the parser does not read embed (rotate e) inside the guard
+   3 = tokens differ from the model, but the REAL tokens parse to exactly embed e (cparse_sound: the
+       text means the tree; e.g. a repair of K-C06-1, a redundant parenthesis)
+   4 = tokens differ from the model, the real tokens parse to a tree with the same re-association
+       normal form as embed e (K-C06-1 family, nothing else) *)
 Definition check_expr (c : expr * list ctoken) : nat :=
   let '(e, ts) := c in
-  if negb (toks_eqb (cprint e) ts) then 1
-  else if prec_ok e then
+  if toks_eqb (cprint e) ts then
+    if prec_ok e then
+      match cparse ts with
+      | Some t => if cexpr_eqb t (embed (rotate e)) then 0 else 2
+      | None => 2
+      end
+    else 0
+  else
     match cparse ts with
-    | Some t => if cexpr_eqb t (embed (rotate e)) then 0 else 2
-    | None => 2
-    end
-  else 0.
+    | Some t =>
+        if cexpr_eqb t (embed e) then 3
+        else if cexpr_eqb (cnorm t) (cnorm (embed e)) then 4 else 1
+    | None => 1
+    end.
 Definition check_stmt (c : stmt * list ctoken) : nat :=
   let '(s, ts) := c in
   match cprint_stmt s with
@@ -643,9 +702,11 @@ void set_env(int32_t a, int32_t b, int32_t c, int32_t k, int32_t t_i, double d, 
                         if c["what"] == "expr":
                             want = ev(x, env)
                             want_rot = ev(rot(x), env)
+                            others = [ev(rot2(x, True, False), env), ev(rot2(x, False, True), env)]
                         else:
                             want = run_stmt(x, env)
                             want_rot = run_stmt(rot(x), env)
+                            others = [run_stmt(rot2(x, True, False), env), run_stmt(rot2(x, False, True), env)]
                     except Skip:
                         n_skipped += 1
                         continue
@@ -656,11 +717,12 @@ void set_env(int32_t a, int32_t b, int32_t c, int32_t k, int32_t t_i, double d, 
                     n_values += 1
                     if float(want).hex() != float(got).hex() and not (float(want) == 0.0 and got == 0.0):
                         explained = float(want_rot).hex() == float(got).hex()
+                        partly = (not explained) and any(float(o).hex() == float(got).hex() for o in others)
                         value_diffs.append({"case": i, "what": c["what"], "kind": c["kind"], "tree": c["repr"], "text": c["text"],
                                             "inputs": env, "c_value": float(got).hex(), "tree_value": float(want).hex(),
                                             "rotated_tree_value": float(want_rot).hex(),
                                             "c_value_dec": repr(float(got)), "tree_value_dec": repr(float(want)),
-                                            "explained_by_rotate": explained})
+                                            "explained_by_rotate": explained, "explained_by_partial_rotate": partly})
 
     for c in cases:
         c.pop("obj", None)
@@ -675,7 +737,7 @@ void set_env(int32_t a, int32_t b, int32_t c, int32_t k, int32_t t_i, double d, 
                       "files": len(files), "unlexed": sum(1 for c in cases if c.get("tokens") is None),
                       "value_functions": len(funcs), "values_compared": n_values, "values_skipped": n_skipped,
                       "value_diffs": len(value_diffs),
-                      "value_diffs_unexplained": sum(1 for d in value_diffs if not d["explained_by_rotate"]),
+                      "value_diffs_unexplained": sum(1 for d in value_diffs if not d["explained_by_rotate"] and not d["explained_by_partial_rotate"]),
                       "compile_dropped": len(compile_dropped), "macro_ok": macro_ok}))
 
 
